@@ -3,6 +3,7 @@ package props
 import (
 	"fmt"
 	"go/token"
+	"os"
 	"sort"
 	"strings"
 
@@ -256,12 +257,49 @@ func (m *fileModel) walkRegion(fn *ssa.Function, flags map[string]bool) ([][]eff
 	x := &FileOpExtractor{P: m.p, Cfg: fracCfgVar}
 	var out [][]effect
 	paths := 0
-	var dfs func(b *ssa.BasicBlock, onPath map[*ssa.BasicBlock]bool, cur []effect)
-	dfs = func(b *ssa.BasicBlock, onPath map[*ssa.BasicBlock]bool, cur []effect) {
+	// evalCond: value of a branch condition on the current path (1 true, -1 false, 0 unknown):
+	// flag loads, negations, constants, and the phi of a short-circuit && / || resolved by the edge taken.
+	var evalCond func(v ssa.Value, at, from *ssa.BasicBlock, d int) int
+	evalCond = func(v ssa.Value, at, from *ssa.BasicBlock, d int) int {
+		if d > 6 {
+			return 0
+		}
+		if field, ok := isFlagLoad(v); ok {
+			if flags[field] {
+				return 1
+			}
+			return -1
+		}
+		switch x := v.(type) {
+		case *ssa.Const:
+			if b, ok := ConstBool(x); ok {
+				if b {
+					return 1
+				}
+				return -1
+			}
+		case *ssa.UnOp:
+			if x.Op == token.NOT {
+				return -evalCond(x.X, at, from, d+1)
+			}
+		case *ssa.Phi:
+			if x.Block() == at && from != nil {
+				for i, p := range at.Preds {
+					if p == from {
+						return evalCond(x.Edges[i], at, nil, d+1)
+					}
+				}
+			}
+		}
+		return 0
+	}
+	var dfs func(b, from *ssa.BasicBlock, onPath map[*ssa.BasicBlock]bool, cur []effect)
+	dfs = func(b, from *ssa.BasicBlock, onPath map[*ssa.BasicBlock]bool, cur []effect) {
 		paths++
 		if paths > 5000 {
 			return
 		}
+
 		for _, in := range b.Instrs {
 			if IsFatalInstr(in) {
 				out = append(out, append(append([]effect{}, cur...), effect{"fatal", in.Pos()}))
@@ -300,7 +338,7 @@ func (m *fileModel) walkRegion(fn *ssa.Function, flags map[string]bool) ([][]eff
 				return
 			}
 			onPath[s] = true
-			dfs(s, onPath, cur)
+			dfs(s, b, onPath, cur)
 			delete(onPath, s)
 		}
 		if len(b.Instrs) == 0 {
@@ -308,29 +346,15 @@ func (m *fileModel) walkRegion(fn *ssa.Function, flags map[string]bool) ([][]eff
 		}
 		switch t := b.Instrs[len(b.Instrs)-1].(type) {
 		case *ssa.If:
-			f := Fact{Cond: t.Cond, Val: true}
-			for {
-				u, ok := f.Cond.(*ssa.UnOp)
-				if !ok || u.Op != token.NOT {
-					break
-				}
-				f.Cond = u.X
-				f.Val = !f.Val
+			switch evalCond(t.Cond, b, from, 0) {
+			case 1:
+				next(b.Succs[0])
+			case -1:
+				next(b.Succs[1])
+			default:
+				next(b.Succs[0])
+				next(b.Succs[1])
 			}
-			if field, ok := isFlagLoad(f.Cond); ok {
-				v := flags[field]
-				if !f.Val {
-					v = !v
-				}
-				if v {
-					next(b.Succs[0])
-				} else {
-					next(b.Succs[1])
-				}
-				return
-			}
-			next(b.Succs[0])
-			next(b.Succs[1])
 		case *ssa.Return:
 			out = append(out, cur)
 		default:
@@ -342,7 +366,7 @@ func (m *fileModel) walkRegion(fn *ssa.Function, flags map[string]bool) ([][]eff
 			}
 		}
 	}
-	dfs(b0, map[*ssa.BasicBlock]bool{b0: true}, nil)
+	dfs(b0, nil, map[*ssa.BasicBlock]bool{b0: true}, nil)
 	return out, ""
 }
 
@@ -426,6 +450,15 @@ func (m *fileModel) decideUncached(flags map[string]bool) loaderOutcome {
 	}
 	kinds, removes := summarize(paths)
 	if len(kinds) != 1 {
+		if os.Getenv("SEQVERIF_DEBUG") != "" {
+			for _, p := range paths {
+				fmt.Printf("DEBUG path flags={%s}:", flagKey(flags))
+				for _, e := range p {
+					fmt.Printf(" %s@%s", e.kind, m.p.Pos(e.pos))
+				}
+				fmt.Println()
+			}
+		}
 		return loaderOutcome{Kind: "AMBIG", Why: fmt.Sprintf("load gives %d different outcomes for flags {%s}", len(kinds), flagKey(flags))}
 	}
 	var rem []string
